@@ -905,6 +905,9 @@ def describe():
     return "unknown (not a git checkout)"
 
 
+NEED = {"markers", "signatures", "forwarding"}
+
+
 def generate():
     rels = ["rodeo.rs", "threaded_rodeo.rs", "reader.rs", "resolver.rs", "util.rs", "keys.rs"]
     adir = os.path.join(REPO, "src", "arenas")
@@ -923,14 +926,26 @@ def generate():
         lose(f"new files in src/interface: {extra}")
     if src["interface/tests.rs"].impls:
         lose("src/interface/tests.rs contains impls outside a module")
-    impls, fields, raw_blocks, n_markers = marker_facts(src)
-    sigs, inval, statics, items = signature_facts(src)
-    fwd, n_fwd = forwarding_facts(src)
+    # A part the asking property does not need (--need) may lose track without failing the run: it is then emitted
+    # EMPTY (its own theorems stop compiling, nobody else's), with the reason in the header.
+    lost_parts = []
+    def part(name, fn, empty):
+        try:
+            return fn(src)
+        except Lost as e:
+            if name in NEED:
+                raise
+            lost_parts.append(f"{name}: {e}")
+            return empty
+    impls, fields, raw_blocks, n_markers = part("markers", marker_facts, ([], {c: [] for c in CONTAINERS}, {}, 0))
+    sigs, inval, statics, items = part("signatures", signature_facts, ([], [], [], []))
+    fwd, n_fwd = part("forwarding", forwarding_facts, ([], 0))
 
     o = []
     o.append(f"(* GENERATED by tools/extract_facts.py -- do not edit.\n   source: {os.path.join(REPO, 'src')} at {describe()}\n"
              f"   {n_markers} `unsafe impl` marker lines attributed, {len(sigs)} string-returning signatures, {len(inval)} invalidating methods,\n"
-             f"   {len(statics)} static entry points, {n_fwd} forwarding methods. *)")
+             f"   {len(statics)} static entry points, {n_fwd} forwarding methods."
+             + "".join(f"\n   PART LOST (emitted empty; not needed by the property being checked): {x}" for x in lost_parts) + " *)")
     o.append(PREAMBLE)
     o.append("(* ---- (a) marker facts ---- *)")
     o.append("(* every `unsafe impl<bounds> Send|Sync for <container>`; at most one per (container, marker) *)")
@@ -983,6 +998,8 @@ def main():
             out = a[i + 1]; i += 2
         elif a[i] == "--check":
             check_only = True; i += 1
+        elif a[i] == "--need":
+            NEED.clear(); NEED.update(x for x in a[i + 1].split(",") if x); i += 2
         else:
             print(__doc__); sys.exit(2)
     try:
